@@ -860,8 +860,8 @@ UNEVAL_COND = ['int a[1 || (1/0 ? 1 : 2)];\n', 'int a[(0 && (1/0 ? 1 : 2)) + 3];
 
 
 def unevaluated_cond(ctx, corr):
-    """is_const_expr must not evaluate the condition of a ?: that sits in an unevaluated operand of && / || (6.6p3 fn 115).
-    Region of the known finding C07-constness-unevaluated-cond (Findings/C07.lean C07_finding_unevaluated_cond)."""
+    """is_const_expr must not evaluate the condition of a ?: that sits in an unevaluated operand of && / || (6.6p3 fn 115):
+    past failure (C07_fixed_unevaluated_cond in Findings/C07.lean)"""
     for i, src in enumerate(UNEVAL_COND):
         path = os.path.join(ctx.scratch, f'uneval_{i}.c')
         open(path, 'w').write(src)
@@ -875,11 +875,9 @@ def unevaluated_cond(ctx, corr):
         if rc != 0:
             corr.violations.append({'what': 'a valid integer constant expression is rejected as an array bound: is_const_expr evaluates a ?: condition '
                                             'inside an unevaluated && / || operand', 'input': src, 'expected': 'accepted (gcc accepts)',
-                                    'got': f'rc={rc} {e[-200:]}', 'known_id': 'C07-constness-unevaluated-cond', 'replay_kind': 'uneval'})
-            if 'C07-constness-unevaluated-cond' not in corr.known_hits:
-                corr.known_hits.append('C07-constness-unevaluated-cond')
-            return
-    corr.extra['unevaluated_cond'] = 'accepted (finding no longer reproduces: update Findings/C07.lean)'
+                                    'got': f'rc={rc} {e[-200:]}', 'replay_kind': 'uneval'})
+            return False
+    return True
 
 
 def correspond(ctx, corr):
@@ -896,7 +894,8 @@ def correspond(ctx, corr):
         return
     if not malformed(ctx, corr):
         return
-    unevaluated_cond(ctx, corr)
+    if not unevaluated_cond(ctx, corr):
+        return
     rng = ctx.rng
     batt = boundary_battery()
     if not ctx.thorough:
@@ -1038,15 +1037,14 @@ MANIFEST = {
                   'structural induction, one BitVec lemma per operator arm), C07_undefined_diag (a zero divisor gives the diagnostic), '
                   'C07_no_trap (on every tree, defined or not, folding ends in a value, a diagnostic or the host\'s undefined shift count: '
                   'never SIGFPE/NULL), C07_division_total (MIN / -1 and x % -1 fold to the wrapped quotient / C remainder), '
-                  'C07_constness_partial (is_const_expr accepts every 6.6p6 operator tree incl. % whose ?: conditions have values) and '
+                  'C07_constness (is_const_expr accepts every 6.6p6 operator tree incl. % that has a value; unevaluated operands need none) and '
                   'C07_constness_sound (accepted trees never yield "not a compile-time constant"), C07_consumers (enumerator, array bound, '
                   'bit-field width, _Alignas, designator, case label, static initializer incl. _Bool store the C11 conversion). '
                   'Tied by the translator and by a differential run: generated expressions in every constant context and as run-time code, '
                   'chibicc = model = Spec = gcc.',
     'level_note': 'Values are proved for the wrapping host (signed overflow of the host int64_t arithmetic wraps, as in the shipped binary); '
                   'Findings/C07.lean shows the strict-host reading reaches host-undefined overflow on defined unsigned long expressions. '
-                  'C07_constness_Statement (every expression with a value is accepted) is open: known finding '
-                  'C07-constness-unevaluated-cond. Floating constant folding is not modelled in Lean (differential only); address constants '
+                  'Floating constant folding is not modelled in Lean (differential only); address constants '
                   'are outside the model; elabE (parser + add_type typing) is a hand model tied only differentially.',
     'technique': 'Lean 4 structural induction over expression trees with one BitVec/Int lemma per operator arm; clang-AST translator; '
                  'compile-and-run differential against gcc',
